@@ -96,21 +96,33 @@ MinDepthV(G, Dev) == FixDV(G, [c \in Names(G) |-> INF], 4 * Cardinality(Names(G)
 MinDepth(G) == MinDepthV(G, {})
 Deviations == {"bool-costs-1", "union-max", "list-assumed-nonempty"}
 
-\* expansion-depthing mode (abstract layers and base values cost one level); only defined here
-\* for forms made of symbols and base types, where the convention is unambiguous
-RECURSIVE FormMinX(_, _)
-FormMinX(f, d) == CASE f.k = "base" -> 1
-                    [] f.k = "sym"  -> IF f.s \in DOMAIN d THEN d[f.s] ELSE INF
-                    [] f.k = "ann"  -> FormMinX(f.es[1], d)
-                    [] OTHER -> INF
-StepDX(G, d) ==
+\* expansion-depthing mode: every expansion costs one level - an abstract layer, a base value, and each list,
+\* union or tuple wrapper (a refinement annotation is not an expansion).  A list that may be empty costs its own
+\* level only; the named deviations are those of the default mode.
+Plus1(m) == IF m >= INF THEN INF ELSE 1 + m
+RECURSIVE FormMinXV(_, _, _)
+FormMinXV(f, d, Dev) ==
+    CASE f.k = "base"  -> 1
+      [] f.k = "sym"   -> IF f.s \in DOMAIN d THEN d[f.s] ELSE INF
+      [] f.k = "list"  -> IF "list-assumed-nonempty" \in Dev THEN Plus1(FormMinXV(f.es[1], d, Dev)) ELSE 1
+      [] f.k = "tuple" -> Plus1(SMax({FormMinXV(f.es[i], d, Dev) : i \in DOMAIN f.es} \cup {0}))
+      [] f.k = "union" -> IF "union-max" \in Dev
+                          THEN Plus1(SMax({FormMinXV(f.es[i], d, Dev) : i \in DOMAIN f.es} \cup {0}))
+                          ELSE Plus1(SMin({FormMinXV(f.es[i], d, Dev) : i \in DOMAIN f.es} \cup {INF}))
+      [] f.k = "ann"   -> IF f.mh.k = "ListSize"
+                          THEN (IF f.mh.lo = 0 /\ "list-assumed-nonempty" \notin Dev THEN 1
+                                ELSE Plus1(FormMinXV(f.es[1].es[1], d, Dev)))
+                          ELSE FormMinXV(f.es[1], d, Dev)
+      [] OTHER -> INF
+FormMinX(f, d) == FormMinXV(f, d, {})
+StepDXV(G, d, Dev) ==
     [c \in Names(G) |->
-        IF IsAbs(G, c) THEN LET m == SMin({d[p] : p \in Prods(G, c)} \cup {INF}) IN IF m >= INF THEN INF ELSE 1 + m
-        ELSE LET m == SMax({FormMinX(Fields(G, c)[i].f, d) : i \in DOMAIN Fields(G, c)} \cup {0})
-             IN IF m >= INF THEN INF ELSE 1 + m]
-RECURSIVE FixDX(_, _, _)
-FixDX(G, d, n) == IF n = 0 THEN d ELSE LET d2 == StepDX(G, d) IN IF d2 = d THEN d ELSE FixDX(G, d2, n - 1)
-MinDepthX(G) == FixDX(G, [c \in Names(G) |-> INF], 4 * Cardinality(Names(G)) + 4)
+        IF IsAbs(G, c) THEN Plus1(SMin({d[p] : p \in Prods(G, c)} \cup {INF}))
+        ELSE Plus1(SMax({FormMinXV(Fields(G, c)[i].f, d, Dev) : i \in DOMAIN Fields(G, c)} \cup {0}))]
+RECURSIVE FixDXV(_, _, _, _)
+FixDXV(G, d, n, Dev) == IF n = 0 THEN d ELSE LET d2 == StepDXV(G, d, Dev) IN IF d2 = d THEN d ELSE FixDXV(G, d2, n - 1, Dev)
+MinDepthXV(G, Dev) == FixDXV(G, [c \in Names(G) |-> INF], 4 * Cardinality(Names(G)) + 4, Dev)
+MinDepthX(G) == MinDepthXV(G, {})
 
 RECURSIVE SimpleForm(_)
 SimpleForm(f) == \/ f.k \in {"base", "sym"}
